@@ -131,7 +131,8 @@ def harness_args(pid, tier, seed):
     if pid == "C04":
         return ["c04", seed] + ([6000, 40] if tier == "quick" else [60000, 40])
     # files, max definitions, random cases, token-mutation stride (0 = every triple in every variant)
-    return ["c12", seed] + ([170, 25, 10000, 8] if tier == "quick" else [3000, 30, 400000, 0])
+    # (thorough with 3000 files / 400000 random cases took 2890 s of the 3000 s pipeline timeout: 2000 / 300000 leaves a margin)
+    return ["c12", seed] + ([170, 25, 10000, 8] if tier == "quick" else [2000, 30, 300000, 0])
 
 
 def run(res, replay=None):
